@@ -77,9 +77,16 @@ SITE = {
     ("in", "genexprsgood"): ["a, b = list(x in snapshot([1, 2]) for x in (1, 2)), list(x in snapshot(['p']) for x in ('p',))", "assert all(a) and all(b)"],
     ("==", "lambdaswrong"): ["f, g = (lambda: 1 == snapshot(1)), (lambda: 'a' == snapshot('b'))", "assert f() and g()"],
     ("[k]<=", "wrong"): ['assert 8 <= snapshot({"a": 5})["a"]'],
+    # a HasRepr stand-in names a class: an object of another class with the same name and repr is not what was recorded
+    ("==", "hasreprgood"): ["from inline_snapshot import HasRepr", "class User:", "    def __repr__(self):", "        return '<User 1>'", "    def __eq__(self, o):", "        return isinstance(o, User) or NotImplemented",
+                            "assert User() == snapshot(HasRepr(User, '<User 1>'))"],
+    ("==", "hasreprwrong"): ["from inline_snapshot import HasRepr", "def make():", "    class User:", "        def __repr__(self):", "            return '<User 1>'", "    return User", "User, Other = make(), make()",
+                             "assert Other() == snapshot(HasRepr(User, '<User 1>'))"],
+    ("in", "hasreprwrong"): ["from inline_snapshot import HasRepr", "def make():", "    class User:", "        def __repr__(self):", "            return '<User 1>'", "    return User", "User, Other = make(), make()",
+                             "assert Other() in snapshot([HasRepr(User, '<User 1>')])"],
     ("[k]in", "wrong"): ['assert 8 in snapshot({"a": [5]})["a"]'],
 }
-BAD = {"wrong", "empty", "wrongkey", "loopbad", "loopbadlast", "wrongnested", "nosrcwrong", "nosrcempty", "threadwrong", "threadempty", "threadcmpwrong", "threadcmpempty", "lambdaswrong"}
+BAD = {"wrong", "empty", "wrongkey", "loopbad", "loopbadlast", "wrongnested", "nosrcwrong", "nosrcempty", "threadwrong", "threadempty", "threadcmpwrong", "threadcmpempty", "lambdaswrong", "hasreprwrong"}
 OPS = ("==", "<=", ">=", "in", "[k]")
 
 
